@@ -306,6 +306,13 @@ func runBackend(c *hlib.Ctx) *hlib.Run {
 	if err != nil {
 		panic(err)
 	}
+	// the same file may be named twice on the command line
+	if nfiles > 0 && s.Draw(6, "duplicate-arg") == 0 {
+		k := s.Draw(nfiles, "dup-which")
+		files = append(files, files[k])
+		paths = append(paths, paths[k])
+		files[len(files)-1].desc = "again:" + files[k].desc
+	}
 	exp := map[string][]entry{}
 	hasMissing := false
 	for i, f := range files {
@@ -313,7 +320,7 @@ func runBackend(c *hlib.Ctx) *hlib.Run {
 			hasMissing = true
 			continue
 		}
-		exp[paths[i]] = expected(f.data, headers)
+		exp[paths[i]] = append(exp[paths[i]], expected(f.data, headers)...)
 	}
 
 	cfg := simrt.DrawConfig(s)
@@ -450,14 +457,16 @@ func runBackend(c *hlib.Ctx) *hlib.Run {
 		}
 		got[r.Filename] = append(got[r.Filename], entry{r.MatchType, r.Name, r.Variant, math.Float64bits(r.Confidence), r.StartLine, r.EndLine})
 	}
+	seenPath := map[string]bool{}
 	for i, f := range files {
-		if f.missing {
+		p := paths[i]
+		if f.missing || seenPath[p] {
 			continue
 		}
-		p := paths[i]
+		seenPath[p] = true
 		if !sameMultiset(exp[p], got[p]) {
 			out.Violation = &hlib.Violation{Oracle: "per-file-matches", Class: "results-differ-from-match:" + diffKind(exp[p], got[p]),
-				Message: fmt.Sprintf("file %s (%s): the backend reports %v\n  but Match on the file's bytes gives %v (headers=%v, numTasks=%d)", f.name, f.desc, got[p], exp[p], headers, numTasks)}
+				Message: fmt.Sprintf("file %s (%s): the backend reports %v\n  but Match on the file's bytes gives %v (headers=%v, numTasks=%d; a file named twice is expected twice)", f.name, f.desc, got[p], exp[p], headers, numTasks)}
 			return out
 		}
 		delete(got, p)
@@ -579,6 +588,17 @@ func runMain(c *hlib.Ctx) *hlib.Run {
 		exp[paths[i]] = expected(f.data, headers)
 		total += len(exp[paths[i]])
 	}
+	// an unreadable file among the arguments: a dangling symbolic link
+	unreadable := s.Draw(8, "unreadable-file") == 0
+	if unreadable {
+		link := filepath.Join(dir, "zz-dangling.txt")
+		if err := os.Symlink(filepath.Join(dir, "does-not-exist"), link); err != nil {
+			unreadable = false
+		} else if !(byDir || nfiles == 0) {
+			args = append(args, link)
+		}
+		out.Counters["fault_unreadable_file_main_level"]++
+	}
 
 	cfg := simrt.DrawConfig(s)
 	cfg.Race = true
@@ -650,6 +670,14 @@ func runMain(c *hlib.Ctx) *hlib.Run {
 			}
 			want = append(want, fmt.Sprintf("%s %s (variant: %v, confidence: %v, start: %v, end: %v)", paths[i], name, e.Variant, math.Float64frombits(e.Conf), e.Start, e.End))
 		}
+	}
+	if unreadable {
+		// the tool gives up: nothing may be reported and the status must say so
+		if len(lines) != 0 || exit == 0 {
+			out.Violation = &hlib.Violation{Oracle: "exit-status", Class: fmt.Sprintf("unreadable-file:exit-%d-lines-%d", exit, len(lines)),
+				Message: fmt.Sprintf("one argument is a dangling symbolic link; the tool printed %d lines and exited with status %d", len(lines), exit)}
+		}
+		return out
 	}
 	gotSorted := append([]string(nil), lines...)
 	sort.Strings(gotSorted)
